@@ -323,6 +323,7 @@ func checkC07(r *Run) propMeta {
 	checkTerminalsByType(r, vm)
 	checkBareKeyKeywords(r, g)
 	checkKeyedStores(r)
+	checkTokenMultiplicity(r, vm)
 	checkEmitterPackageState(r, "C07-R9-emitter-stateless")
 	checkNameCodecSymmetry(r)
 	checkParsedNumbersUnconverted(r)
